@@ -180,6 +180,10 @@ structure ChanView where
   initialTargets : List Nat
   /-- `det_map.get_qubit_weight_map(samples.qubits)` by qubit index (DMM only). -/
   weights : List Rat := []
+  /-- `bool(cs.eom_blocks) and cs.eom_blocks[-1].tf is None`: the channel is left in EOM mode. -/
+  openEom : Bool := false
+  /-- `cs.target_time_slots[-1].targets` (empty without target slots). -/
+  lastTargets : List Nat := []
   deriving DecidableEq, Repr, Inhabited
 
 /-- `det_weight_map[t]`: `defaultdict(int, weight map)` for a DMM, `defaultdict(lambda: 1.0)` otherwise. -/
@@ -201,6 +205,15 @@ def startT (m : SlmMask) (v : ChanView) : Int := if v.basis == .xy then m.end_ e
 def ChanView.globalBranch (v : ChanView) (allLocal : Bool) : Bool :=
   !v.isLocal && !allLocal && !v.isDmm
 
+/-- `for ind, s in enumerate(cs.slots)` with `last_open = open_eom and ind == len(cs.slots) - 1`:
+every pulse-target slot with the end of its slice, `None` (to the end of the arrays) for the last
+slot of a channel left in EOM mode — such a channel keeps idling at `detuning_off`, which is
+what `extend_duration` pads with (repair of F-C06-5). -/
+def slotWindows (openEom : Bool) : List PTSlot → List (PTSlot × Option Int)
+  | [] => []
+  | [s] => [(s, if openEom then none else some s.tf)]
+  | s :: s' :: rest => (s, some s.tf) :: slotWindows openEom (s' :: rest)
+
 /-- Body of the loop of `to_nested_dict` for the channel at position `k`, in statement order
 (a Python `set` holds every qubit once: `eraseDups`). -/
 def chanInstrs (allLocal : Bool) (m : SlmMask) (k : Nat) (v : ChanView) : List NInstr :=
@@ -216,11 +229,18 @@ def chanInstrs (allLocal : Bool) (m : SlmMask) (k : Nat) (v : ChanView) : List N
           let unmasked := s0.targets.eraseDups.filter fun q => !m.targets.contains q
           unmasked.map fun q => NInstr.add v.basis (some q) k 0 (some (startT m v)) 1)
   else
-    (if v.slots.isEmpty then v.initialTargets.eraseDups.map (NInstr.touch v.basis) else []) ++
-    v.slots.flatMap fun s => s.targets.eraseDups.map fun q =>
+    (if v.slots.isEmpty then
+       v.initialTargets.eraseDups.map (NInstr.touch v.basis) ++
+       -- `if open_eom and cs.target_time_slots:` the last targets over `slice(0, None)`
+       (if v.openEom then
+          v.lastTargets.eraseDups.map fun q => NInstr.add v.basis (some q) k 0 none (v.weight q)
+        else [])
+     else []) ++
+    (slotWindows v.openEom v.slots).flatMap fun sw => sw.1.targets.eraseDups.map fun q =>
       -- `if in_xy and t in self._slm_mask.targets: ti = max(ti, self._slm_mask.end)`
-      let ti := if v.basis == .xy && m.targets.contains q then max s.ti m.end_ else s.ti
-      NInstr.add v.basis (some q) k ti (some s.tf) (v.weight q)
+      let ti := if v.basis == .xy && m.targets.contains q then max sw.1.ti m.end_ else sw.1.ti
+      -- `times = slice(ti, None if last_open else s.tf)`
+      NInstr.add v.basis (some q) k ti sw.2 (v.weight q)
 
 def nestedInstrsFrom (allLocal : Bool) (m : SlmMask) (k : Nat) : List ChanView → List NInstr
   | [] => []
@@ -280,9 +300,15 @@ def nestedPhaseAt (instrs : List NInstr) (on : Nat → Bool) (b : Basis) (q : Op
   (entryPhase on ((attribAt instrs b q t).map (·.1))).1
 
 /-- The view of a scheduled channel. -/
+def ChanState.lastTargets (c : ChanState) : List Nat :=
+  match c.slots.reverse.find? Slot.isTarget with
+  | some s => s.targets
+  | none => []
+
 def ChanState.view (c : ChanState) (weights : List Rat) : ChanView :=
   { basis := c.cfg.basis, isLocal := c.cfg.isLocal, isDmm := c.cfg.isDmm,
-    slots := c.ptSlots, initialTargets := c.initialTargets, weights := weights }
+    slots := c.ptSlots, initialTargets := c.initialTargets, weights := weights,
+    openEom := c.openDetOff.isSome, lastTargets := c.lastTargets }
 
 /-! ### `_Schedule.find_slm_mask_times` (XY mode) -/
 
